@@ -250,6 +250,9 @@ func Run(col *core.Collector, prop, tier, variant string, seed uint64, shard, ns
 			col.Count("hook."+sites[s], n)
 		}
 	}
+	if prop == "C05" && variant == "plain" && col.NumViolations() == 0 {
+		runC05ShortenAll(col, tier, seed, shard, nshards, replayDir)
+	}
 	if classes := lateClasses[prop]; classes != nil && col.NumViolations() == 0 {
 		runtime.GOMAXPROCS(runtime.NumCPU())
 		RunLate(col, prop, classes, tier, variant, shard, nshards, replayDir)
